@@ -70,3 +70,11 @@ func VNewHook(name string, cfg *config.HookConfig, kmgr kubeeventsmanager.KubeEv
 	h.WithTmpDir("/tmp")
 	return h
 }
+
+// VSkipInit makes Manager.Init a no-op (the manager was built by VNewManager).
+var VSkipInit bool
+
+func vSkipInit() bool { return VSkipInit }
+
+//verif:stub (*$R/pkg/hook.Manager).Init if vSkipInit
+func vInitStub(hm *Manager) error { return nil }
